@@ -157,6 +157,10 @@ func valuePool() []*variants.Variant {
 		variants.VariantFromTimeSpan(0), variants.VariantFromTimeSpan(1500 * time.Millisecond), variants.VariantFromTimeSpan(-2 * time.Second), variants.VariantFromTimeSpan(time.Duration(math.MaxInt64)),
 		variants.VariantFromObject(objPool[0]), variants.VariantFromObject(objPool[1]),
 		arr, variants.VariantFromArray([]*variants.Variant{}), variants.VariantFromArray([]*variants.Variant{variants.VariantFromDouble(2.5), mk(2)}),
+		// (appended last: other generators index into the pool) negative zeros; lists holding date-times written in a time zone
+		variants.VariantFromDouble(math.Copysign(0, -1)), variants.VariantFromFloat(float32(math.Copysign(0, -1))),
+		variants.VariantFromArray([]*variants.Variant{variants.VariantFromDateTime(time.Date(2020, 1, 5, 1, 30, 0, 0, time.FixedZone("e", 5*3600))), mk(3)}),
+		variants.VariantFromArray([]*variants.Variant{variants.VariantFromDateTime(time.Unix(1614834367, 0).UTC()), variants.VariantFromDouble(math.Copysign(0, -1))}),
 	}
 }
 
